@@ -16,9 +16,10 @@ fn out_s() -> impl Strategy<Value = OutS> {
 }
 
 pub fn plutus_s() -> impl Strategy<Value = PlutusS> {
-    (1u8..=3, 0u8..4, any::<u8>(), 3_000_000u64..50_000_000, 0u64..5_000_000, 0u64..2_000_000_000, 0u8..4, 6_000_000u64..40_000_000, any::<bool>(), any::<bool>(), any::<bool>())
-        .prop_map(|(version, script_tag, datum, coin, mem, steps, collateral_key, collateral_coin, collateral_return, total_collateral, redeemer_map)| PlutusS {
-            version, script_tag, datum, coin, mem, steps, collateral_key, collateral_coin, collateral_return, total_collateral, redeemer_map,
+    (1u8..=3, 0u8..4, any::<u8>(), 3_000_000u64..50_000_000, 0u64..5_000_000, 0u64..2_000_000_000, 0u8..4, 6_000_000u64..40_000_000, any::<bool>(), any::<bool>(),
+        (any::<bool>(), prop::bool::weighted(0.35), prop::bool::weighted(0.3)))
+        .prop_map(|(version, script_tag, datum, coin, mem, steps, collateral_key, collateral_coin, collateral_return, total_collateral, (redeemer_map, via_reference, empty_sibling_lists))| PlutusS {
+            version, script_tag, datum, coin, mem, steps, collateral_key, collateral_coin, collateral_return, total_collateral, redeemer_map, via_reference, empty_sibling_lists,
         })
 }
 
@@ -34,11 +35,11 @@ pub fn spec_for(era: EraK) -> impl Strategy<Value = Spec> {
         prop::collection::vec(0u8..6, 0..2),
         prop::option::weighted(0.4, plutus_s()),
         any::<bool>(),
-        (0u32..50_000, prop_oneof![3 => Just(0u8), 4 => 1u8..7]),
+        (0u32..50_000, prop_oneof![3 => Just(0u8), 4 => 1u8..7], prop_oneof![3 => Just(0u8), 2 => 1u8..3]),
     )
-        .prop_map(move |(inputs, outputs, mint, metadata, ttl_slack, validity_back, body_network_id, req_signers, plutus, legacy_outputs, (extra_fee, aux_form))| Spec {
+        .prop_map(move |(inputs, outputs, mint, metadata, ttl_slack, validity_back, body_network_id, req_signers, plutus, legacy_outputs, (extra_fee, aux_form, ref_inputs))| Spec {
             era, inputs, outputs, mint, metadata, ttl_slack, validity_back, body_network_id, req_signers, plutus, legacy_outputs, extra_fee, certs: vec![],
-            aux_form, early_multiasset: false,
+            aux_form, early_multiasset: false, ref_inputs,
         })
 }
 
